@@ -398,6 +398,14 @@ func registerReflect(ex *Executor) {
 		}
 		return ex.rtypeVal(iv.T), cNext
 	}
+	I["reflect.New"] = func(ex *Executor, st *State, cc *CallCtx, args []Val) (Val, ctl) {
+		t := rtypeOf(args[0])
+		if t == nil {
+			ex.goPanic(st, "reflect: New(nil)")
+		}
+		p := ex.alloc(st, t, "reflect.New", ex.zero(t))
+		return &RValue{Valid: true, Typ: types.NewPointer(t), Val: p}, cNext
+	}
 	I["reflect.Indirect"] = func(ex *Executor, st *State, cc *CallCtx, args []Val) (Val, ctl) {
 		r := rv(args[0])
 		if r.Valid {
@@ -829,10 +837,23 @@ func registerReflect(ex *Executor) {
 		}
 		return acc, cNext
 	}
+	I["strings.EqualFold"] = func(ex *Executor, st *State, cc *CallCtx, args []Val) (Val, ctl) {
+		a, b := args[0].(*smt.Term), args[1].(*smt.Term)
+		if a.IsConst() && b.IsConst() {
+			return smt.BoolC(strings.EqualFold(a.S, b.S)), cNext
+		}
+		if smt.StrAsInt {
+			ex.abort("strings.EqualFold on a symbolic string (needs -strint=false with cvc5)")
+		}
+		return smt.Eq(smt.App("str.to_lower", smt.String, a), smt.App("str.to_lower", smt.String, b)), cNext
+	}
 	I["strings.ToLower"] = func(ex *Executor, st *State, cc *CallCtx, args []Val) (Val, ctl) {
 		s := args[0].(*smt.Term)
 		if !s.IsConst() {
-			ex.abort("strings.ToLower on a symbolic string")
+			if smt.StrAsInt {
+				ex.abort("strings.ToLower on a symbolic string (needs -strint=false with cvc5)")
+			}
+			return smt.App("str.to_lower", smt.String, s), cNext
 		}
 		return smt.StrC(strings.ToLower(s.S)), cNext
 	}
